@@ -1,5 +1,10 @@
 import RaftVerif.Model.Quorum
 import RaftVerif.Model.Parse
+import RaftVerif.Model.RawNode
+/-!
+Line-protocol driver (compiled as `raftmodel`): one operation per input line, one answer per line.
+See DESIGN.md Appendix B. Core Lean only.
+-/
 open RaftVerif RaftVerif.Parse
 
 def fmtIdx : Option Nat → String
@@ -17,12 +22,273 @@ def cmdQuorum (args : List String) : String :=
     s!"ci={fmtIdx (Quorum.jointCommitted c0 c1 ack)} vr={(Quorum.jointVote c0 c1 vt).toString} ci0={fmtIdx (Quorum.majorityCommitted c0 ack)} vr0={(Quorum.majorityVote c0 vt).toString}"
   | _ => "bad-op"
 
+/-! ### token parsers -/
+
+abbrev Tok := List String
+
+def pNat (t : Tok) : Option (Nat × Tok) :=
+  match t with
+  | x :: rest => x.toNat?.map (·, rest)
+  | [] => none
+
+def pEntry (s : String) : Option Entry :=
+  match splitOn1 s '.' with
+  | [t, i, ty, d] =>
+    match t.toNat?, i.toNat? with
+    | some t, some i =>
+      let typ := if ty == "-" then none else (ty.toNat?.bind EntryType.ofNat?)
+      some { term := t, index := i, typ := typ, data := optBytes d }
+    | _, _ => none
+  | _ => none
+
+def pEntries : Nat → Tok → Option (List Entry × Tok)
+  | 0, t => some ([], t)
+  | n + 1, x :: rest =>
+    match pEntry x, pEntries n rest with
+    | some e, some (es, rest') => some (e :: es, rest')
+    | _, _ => none
+  | _ + 1, [] => none
+
+def pNEntries (t : Tok) : Option (List Entry × Tok) :=
+  match pNat t with
+  | some (n, rest) => pEntries n rest
+  | none => none
+
+/-- `-` | `S idx term v o l n a data` -/
+def pSnap (t : Tok) : Option (Option Snapshot × Tok) :=
+  match t with
+  | "-" :: rest => some (none, rest)
+  | "S" :: idx :: term :: v :: o :: l :: n :: a :: d :: rest =>
+    match idx.toNat?, term.toNat? with
+    | some idx, some term =>
+      some (some { index := idx, term := term, data := optBytes d,
+                   conf := { voters := idList v, votersOutgoing := idList o, learners := idList l,
+                             learnersNext := idList n, autoLeave := a == "1" } }, rest)
+    | _, _ => none
+  | _ => none
+
+/-- `m type from to term logterm index commit vote reject hint nents ents… snap ctx nresp resps…` -/
+partial def pMsg (t : Tok) : Option (Message × Tok) := do
+  let "m" :: t := t | none
+  let (ty, t) ← pNat t
+  let ty ← MsgType.ofNat? ty
+  let (frm, t) ← pNat t
+  let (to, t) ← pNat t
+  let (term, t) ← pNat t
+  let (logTerm, t) ← pNat t
+  let (index, t) ← pNat t
+  let (commit, t) ← pNat t
+  let (vote, t) ← pNat t
+  let (reject, t) ← pNat t
+  let (hint, t) ← pNat t
+  let (ents, t) ← pNEntries t
+  let (snap, t) ← pSnap t
+  let ctx :: t := t | none
+  let (nresp, t) ← pNat t
+  let mut resps : List Message := []
+  let mut t := t
+  for _ in List.range nresp do
+    let (r, t') ← pMsg t
+    resps := resps ++ [r]
+    t := t'
+  pure ({ typ := ty, «from» := frm, to := to, term := term, logTerm := logTerm, index := index, commit := commit,
+          vote := vote, reject := reject != 0, rejectHint := hint, entries := ents, snapshot := snap,
+          context := optBytes ctx, responses := resps }, t)
+
+def pConfig (t : Tok) : Option (Config × Tok) := do
+  let (id, t) ← pNat t
+  let (et, t) ← pNat t
+  let (ht, t) ← pNat t
+  let (applied, t) ← pNat t
+  let (async, t) ← pNat t
+  let (msz, t) ← pNat t
+  let (mcs, t) ← pNat t
+  let (mus, t) ← pNat t
+  let (mi, t) ← pNat t
+  let (mib, t) ← pNat t
+  let (cq, t) ← pNat t
+  let (pv, t) ← pNat t
+  let (ro, t) ← pNat t
+  let (dpf, t) ← pNat t
+  let (dcv, t) ← pNat t
+  let (sdr, t) ← pNat t
+  pure ({ id := id, electionTick := et, heartbeatTick := ht, applied := applied, asyncStorageWrites := async != 0,
+          maxSizePerMsg := msz, maxCommittedSizePerReady := mcs, maxUncommittedEntriesSize := mus,
+          maxInflightMsgs := mi, maxInflightBytes := mib, checkQuorum := cq != 0, preVote := pv != 0,
+          readOnlyOption := ro, disableProposalForwarding := dpf != 0, disableConfChangeValidation := dcv != 0,
+          stepDownOnRemoval := sdr != 0 }, t)
+
+/-- `hs snap nents ents…`, hs = `-` | `t.v.c` -/
+def pStorage (t : Tok) : Option (MemoryStorage × Tok) := do
+  let hs :: t := t | none
+  let hs : Option HardState :=
+    if hs == "-" then none
+    else match (splitOn1 hs '.').map natOrZero with
+      | [a, b, c] => some { term := a, vote := b, commit := c }
+      | _ => none
+  let (snap, t) ← pSnap t
+  let (ents, t) ← pNEntries t
+  pure ({ hardState := hs, snapshot := snap.getD {}, ents := ents }, t)
+
+/-! ### node state table -/
+
+inductive Slot where
+  | live (rn : RawNode)
+  | dead (sto : MemoryStorage) (why : String)
+
 structure DriverState where
-  dummy : Unit := ()
+  nodes : List (Nat × Slot) := []
+  verbose : Bool := false
+
+def DriverState.get (st : DriverState) (k : Nat) : Option Slot := Quorum.lookup st.nodes k
+def DriverState.put (st : DriverState) (k : Nat) (s : Slot) : DriverState :=
+  { st with nodes := (k, s) :: st.nodes.filter (·.1 != k) }
+
+def fmtErr : Option ApiErr → String
+  | none => "err=-"
+  | some e => "err=" ++ e.toString
+
+def splitDraws (t : Tok) : Tok × List Nat :=
+  match t.getLast? with
+  | some last =>
+    if last.startsWith "d=" then (t.dropLast, idList (last.drop 2).toString) else (t, [])
+  | none => (t, [])
+
+/-- storage operations (the application / storage thread writing to the MemoryStorage) -/
+def storageOp (sto : MemoryStorage) (op : String) (args : Tok) : Option (String × MemoryStorage) :=
+  match op, args with
+  | "st-hs", [a, b, c] =>
+    some ("ok", sto.setHardState { term := natOrZero a, vote := natOrZero b, commit := natOrZero c })
+  | "st-append", t =>
+    match pNEntries t with
+    | none => some ("bad-op", sto)
+    | some (ents, _) =>
+      match sto.append ents with
+      | .ok sto' => some ("ok", sto')
+      | .error _ => some ("panic", sto)
+  | "st-applysnap", t =>
+    match pSnap t with
+    | some (some s, _) =>
+      match sto.applySnapshot s with
+      | .ok sto' => some ("ok", sto')
+      | .error e => some (e.toString, sto)
+    | _ => some ("bad-op", sto)
+  | "st-mksnap", i :: t =>
+    match pSnap t with
+    | some (cs, d :: _) =>
+      match sto.createSnapshot (natOrZero i) (cs.map (·.conf)) (optBytes d) with
+      | .ok (.ok (sto', s)) => some (fmtSnapshot (some s), sto')
+      | .ok (.error e) => some (e.toString, sto)
+      | .error _ => some ("panic", sto)
+    | _ => some ("bad-op", sto)
+  | "st-compact", [i] =>
+    match sto.compact (natOrZero i) with
+    | .ok (.ok sto') => some ("ok", sto')
+    | .ok (.error e) => some (e.toString, sto)
+    | .error _ => some ("panic", sto)
+  | _, _ => none
+
+def slotStorage : Slot → MemoryStorage
+  | .live rn => rn.raft.log.storage
+  | .dead sto _ => sto
+
+def slotSetStorage (s : Slot) (sto : MemoryStorage) : Slot :=
+  match s with
+  | .live rn => .live { rn with raft := { rn.raft with log := { rn.raft.log with storage := sto } } }
+  | .dead _ why => .dead sto why
+
+/-- one node operation: returns (output text, new slot) -/
+def nodeOp (slot : Option Slot) (op : String) (args : Tok) (draws : List Nat) : String × Option Slot :=
+  let fail (rn : RawNode) (e : String) : String × Option Slot := ("panic", some (.dead rn.raft.log.storage e))
+  match op, slot with
+  | "new", _ =>
+    match (pConfig args).bind (fun (c, t) =>
+        match t with
+        | "sto" :: t => (pStorage t).map (fun (sto, _) => (c, sto))
+        | _ => none) with
+    | none => ("bad-op", slot)
+    | some (c, sto) =>
+      match RawNode.new c sto draws with
+      | .ok rn => ("ok", some (.live rn))
+      | .error e => ("panic", some (.dead sto e))
+  | "restart", some s =>
+    let sto := slotStorage s
+    match pConfig args with
+    | none => ("bad-op", slot)
+    | some (c, _) =>
+      match RawNode.new c sto draws with
+      | .ok rn => ("ok", some (.live rn))
+      | .error e => ("panic", some (.dead sto e))
+  | _, none => ("no-node", slot)
+  | op, some s =>
+    match storageOp (slotStorage s) op args with
+    | some (out, sto') => (out, some (slotSetStorage s sto'))
+    | none =>
+    match s with
+    | .dead _ _ => ("dead", slot)
+    | .live rn =>
+    let api (r : Except String (Option ApiErr × RawNode)) : String × Option Slot :=
+      match r with
+      | .ok (e, rn') => (fmtErr e, some (.live rn'))
+      | .error e => fail rn e
+    match op, args with
+    | "tick", _ =>
+      match rn.tick draws with
+      | .ok rn' => ("ok", some (.live rn'))
+      | .error e => fail rn e
+    | "campaign", _ => api (rn.campaign draws)
+    | "propose", [d] => api (rn.propose draws (optBytes d))
+    | "proposecc", [ty, d] =>
+      match ty.toNat?.bind EntryType.ofNat? with
+      | some ty => api (rn.proposeConfChange draws ty (optBytes d))
+      | none => ("bad-op", slot)
+    | "step", t =>
+      match pMsg t with
+      | some (m, _) => api (rn.step draws m)
+      | none => ("bad-op", slot)
+    | "ready", _ =>
+      match rn.ready with
+      | .ok (rd, rn') => (RawNode.fmtReady rd, some (.live rn'))
+      | .error e => fail rn e
+    | "hasready", _ => (toString (b2n rn.hasReady), slot)
+    | "advance", _ =>
+      match rn.advance draws with
+      | .ok rn' => ("ok", some (.live rn'))
+      | .error e => fail rn e
+    | "applycc", [v, d] =>
+      let cc := if v == "1" then decodeConfChangeV1AsV2 ((optBytes d).getD []) else decodeConfChangeV2 ((optBytes d).getD [])
+      match cc with
+      | none => ("bad-op", slot)
+      | some cc =>
+        match rn.applyConfChange draws cc with
+        | .ok (cs, rn') => (fmtConfState cs, some (.live rn'))
+        | .error e => fail rn e
+    | "unreachable", [id] => api (rn.reportUnreachable draws (natOrZero id))
+    | "snapstatus", [id, f] => api (rn.reportSnapshot draws (natOrZero id) (f == "1"))
+    | "transfer", [id] => api (rn.transferLeader draws (natOrZero id))
+    | "forget", _ => api (rn.forgetLeader draws)
+    | "readindex", [d] => api (rn.readIndex draws (optBytes d))
+    | "crash", _ => ("ok", some (.dead rn.raft.log.storage "crashed"))
+    | _, _ => ("bad-op", slot)
+
+def slotDump : Option Slot → String
+  | some (.live rn) => rn.dump
+  | some (.dead sto _) => s!"dead sto: {fmtStorage sto}"
+  | none => "none"
 
 def step (st : DriverState) (line : String) : DriverState × String :=
   match splitOn1 line.trimAscii.toString ' ' with
   | "q" :: args => (st, cmdQuorum args)
+  | ["verbose", v] => ({ st with verbose := v == "1" }, "ok")
+  | "n" :: k :: op :: rest =>
+    let k := natOrZero k
+    let (args, draws) := splitDraws rest
+    let (out, slot') := nodeOp (st.get k) op args draws
+    let st' := match slot' with | some s => st.put k s | none => st
+    let dump := slotDump (st'.get k)
+    let why := match st'.get k with | some (.dead _ w) => s!" why={w}" | _ => ""
+    if st.verbose then (st', s!"out={out} || state={dump}{why}")
+    else (st', s!"{hex64 (fnv64 out)} {hex64 (fnv64 dump)}")
   | _ => (st, "bad-op")
 
 partial def loop (h : IO.FS.Stream) (out : IO.FS.Stream) (st : DriverState) : IO Unit := do
